@@ -165,11 +165,14 @@ class HollowPlanar3DCode(StabilizerCode):
         Lx, Ly, Lz = self.size
         logicals = []
 
-        # X operators along x edges in x direction.
+        # Z operators on the x edges of one cross-section: the one through
+        # the cavity when there is one, where the membrane is lightest.
+        x = 3 if Lx >= 3 else 1
         operator: Operator = dict()
         for y in range(0, 2*Ly, 2):
             for z in range(0, 2*Lz, 2):
-                operator[(1, y, z)] = 'Z'
+                if not self._is_in_hole(x, y, z):
+                    operator[(x, y, z)] = 'Z'
         logicals.append(operator)
 
         return logicals
